@@ -96,6 +96,27 @@ class PArr:
             return self
         raise Unsupported("points." + name)
 
+    # coordinates gathered by a connectivity, edge vectors, their lengths:
+    # values derived from the points of one operand (only the layout of the
+    # stacked arrays is tracked by this run)
+    def skv_getitem(self, ix):
+        return Derived()
+
+
+class Derived:
+    skv_isarray = True
+
+    def skv_getitem(self, ix):
+        return self
+
+    def skv_binop(self, op, other, reflected):
+        return self
+
+    def skv_getattr(self, name):
+        if name in ("min", "max"):
+            return PyFunc(lambda a, k, n: 1)
+        raise Unsupported("derived quantity." + name)
+
 
 class TArr:
     skv_isarray = True
@@ -103,6 +124,16 @@ class TArr:
     def __init__(self, k, offset=None):
         self.k = k
         self.offset = offset if offset is not None else Poly()
+
+    def skv_getattr(self, name):
+        if name == "shape":
+            return (3, Poly.sym(f"ncells{self.k}"))
+        raise Unsupported("connectivity." + name)
+
+    def skv_getitem(self, ix):
+        if isinstance(ix, int):
+            return ("row", self.k, ix)
+        raise Unsupported("index into a connectivity")
 
     def skv_binop(self, op, other, reflected):
         if isinstance(op, ast.Add) and isinstance(other, (int, Fraction,
@@ -171,7 +202,7 @@ def _joins(model, rep):
             return args[0]
         if name in ("numpy.abs", "numpy.absolute", "numpy.round",
                     "numpy.around", "numpy.linalg.norm") and isinstance(
-                args[0], PStack):
+                args[0], (PStack, Derived)):
             return args[0]
         if name == "numpy.cumsum":
             out, tot = [], Poly()
@@ -371,6 +402,38 @@ def _join_coordinates(model, rep):
            "of a graded mesh - MeshQuad.init_tensor(x, x) with x = [0] + "
            "geomspace(1e-7, 100, 37) joined with its mirror image loses 705 "
            "vertices and gets 690 cells of zero area", calls[0].lineno)
+    # the sibling join '@' (meshes of different cell types over one point
+    # array) must identify vertices the same way: bitwise comparison there
+    # and a tolerance here leaves patches whose common vertices agree up to
+    # round-off (0.1 + 0.2 vs 0.3) disconnected under '@' only
+    mm = mcls.methods["__matmul__"]
+    mdefs = {}
+    for n in ast.walk(mm.node):
+        if isinstance(n, ast.Assign) and len(n.targets) == 1 and isinstance(
+                n.targets[0], ast.Name) and n.targets[0].id not in mdefs:
+            mdefs[n.targets[0].id] = n.value
+    uniq = [c for c in ast.walk(mm.node) if isinstance(c, ast.Call)
+            and src(c.func) == "np.unique" and c.args]
+    if len(uniq) != 1:
+        raise AnalysisError("Mesh.__matmul__: duplicate removal not found")
+    marg = uniq[0].args[0]
+    while isinstance(marg, ast.Call) and isinstance(
+            marg.func, ast.Attribute) and marg.func.attr == "view":
+        marg = marg.func.value
+
+    def mpos(e):
+        return isinstance(e, ast.Attribute) and e.attr in ("p", "doflocs") \
+            and isinstance(e.value, ast.Name)
+    mv = make_evaluator(mdefs, mpos)(marg)
+    same_kind = (mv == ("inv", 0)) == (v == ("inv", 0)) and mv[0] != "bad"
+    _v(rep, R3, same_kind, "Mesh.__matmul__:merge-key-like-add",
+       "'@' and '+' identify common vertices with the same kind of key",
+       "Mesh.__matmul__",
+       f"'@' compares {'raw coordinates bitwise' if mv == AFF else mv} "
+       f"while '+' merges with a scale-free tolerance: four patches at "
+       f"x0 = 0, .1, .2, .3 joined with '@' stay cut along x = 0.3 "
+       f"(0.1 + 0.2 != 0.3), joined with '+' they are one strip",
+       uniq[0].lineno)
     _v(rep, R3, v in (("inv", 0), AFF), "Mesh.__add__:scale-free-key",
        "the key by which common vertices are found is unchanged by a "
        "translation of the operands and by a change of the unit of length",
